@@ -294,4 +294,180 @@ Proof.
   rewrite ?Hz. gen_unfold. ring.
 Qed.
 
+(* ---------- 5. the loop: reads-before-writes implies every equation holds at the end ---------- *)
+Notation stepT := (Z * eqn)%type.
+
+Definition res_cell (e : eqn) (t : Z) : list cell := match e_res e with Some r => [(r, t)] | None => [] end.
+
+(* cells a step may write *)
+Definition writes (s : stepT) : list cell := (e_lhs (snd s), fst s) :: res_cell (snd s) (fst s).
+
+(* cells the equation at that period mentions *)
+Definition eq_cells (s : stepT) : list cell :=
+  let '(t, e) := s in
+  (e_lhs e, t) :: (e_lhs e, (t + lhs_of_level_shift (e_tr e))%Z) :: res_cell e t ++ cells_of (e_rhs e) t.
+
+(* cells _detect_exogenized reads *)
+Definition plan_cells (pl : plan) (s : stepT) : list cell :=
+  let '(t, e) := s in
+  match get_transform A pl e t with
+  | None => []
+  | Some pp => (e_lhs e, (t + p_shift pp)%Z) :: match p_row pp with Some r => [(r, t)] | None => [] end
+  end.
+
+Definition deps (pl : plan) (s : stepT) : list cell := eq_cells s ++ plan_cells pl s.
+
+(* the order computes every value before it is read: no later step writes a cell an earlier step depends on *)
+Definition rbw (pl : plan) (steps : list stepT) : Prop :=
+  ordpairs (fun s s' => forall c, In c (writes s') -> ~ In c (deps pl s)) steps.
+
+Definition step_ok (s : stepT) : Prop :=
+  let '(t, e) := s in
+  wf_eqn e /\ ~ In (e_lhs e, t) (cells_of (e_rhs e) t) /\
+  (forall r, e_res e = Some r -> ~ In (r, t) (cells_of (e_rhs e) t)).
+
+Lemma eqn_ok_step_ok e t : eqn_ok e -> step_ok (t, e).
+Proof.
+  intros [Hwf [Hl Hr]]. repeat split; [exact Hwf | now apply not_in_cells |].
+  intros r Hr'. apply not_in_cells. now apply Hr.
+Qed.
+
+(* a step that may be simulated (not exogenized, or exogenized only when data are available) needs the
+   reference value inside the domain of its transform *)
+Definition may_simulate (pl : plan) (s : stepT) : Prop :=
+  match get_transform A pl (snd s) (fst s) with None => True | Some pp => p_when_data pp = true end.
+Definition dom_ok (pl : plan) (s : stepT) (d : data) : Prop :=
+  may_simulate pl s -> lhs_dom (e_tr (snd s)) (d (e_lhs (snd s)) (fst s + lhs_of_level_shift (e_tr (snd s)))%Z).
+
+(* frame: a step changes only the cells it writes *)
+Lemma set_lhs_frame e t (d : data) v c : ~ In c (writes (t, e)) -> at_ (set_lhs A e t d v) c = at_ d c.
+Proof.
+  intros H. destruct c as [r' c']. unfold at_, set_lhs; cbn [fst snd]. apply upd_other.
+  intros E. apply H. left. now rewrite E.
+Qed.
+Lemma set_res_frame e t (d : data) v c : ~ In c (writes (t, e)) -> at_ (set_res A e t d v) c = at_ d c.
+Proof.
+  intros H. destruct c as [r' c']. unfold at_, set_res; cbn [fst snd].
+  destruct (e_res e) as [r|] eqn:Hr; [|reflexivity]. apply upd_other.
+  intros E. apply H. right. unfold res_cell; cbn [fst snd]. rewrite Hr. left. now rewrite E.
+Qed.
+
+Lemma step_frame pl s (d : data) c : ~ In c (writes s) -> at_ (step A pl s d) c = at_ d c.
+Proof.
+  destruct s as [t e]. intros H. unfold step.
+  destruct (detect A (get_transform A pl e t) (e_lhs e) t d) as [v|].
+  - unfold exogenize_cell, exogenize_gen. now rewrite ?set_res_frame, ?set_lhs_frame by exact H.
+  - unfold simulate_cell, simulate_gen. now rewrite ?set_res_frame, ?set_lhs_frame by exact H.
+Qed.
+
+Lemma run_frame pl steps (d : data) c :
+  (forall s, In s steps -> ~ In c (writes s)) -> at_ (run A pl steps d) c = at_ d c.
+Proof.
+  revert d. induction steps as [|s steps IH]; intros d H; [reflexivity|].
+  cbn [run fold_left]. change (at_ (run A pl steps (step A pl s d)) c = at_ d c).
+  rewrite IH by (intros s' Hs'; apply H; now right). apply step_frame, H. now left.
+Qed.
+
+(* the equation at a step depends only on eq_cells *)
+Lemma holds_ext e t (d d' : data) :
+  (forall c, In c (eq_cells (t, e)) -> at_ d c = at_ d' c) -> holds e t d -> holds e t d'.
+Proof.
+  intros H. unfold holds, lhs_value, rhs_total. cbn [eq_cells] in H.
+  assert (H1 := H (e_lhs e, t) (or_introl eq_refl)).
+  assert (H2 := H (e_lhs e, (t + lhs_of_level_shift (e_tr e))%Z) (or_intror (or_introl eq_refl))).
+  unfold at_ in H1, H2; cbn [fst snd] in H1, H2. rewrite <- H1, <- H2.
+  rewrite <- (eval_ext (e_rhs e) d d' t)
+    by (intros c Hc; apply H; right; right; apply in_or_app; now right).
+  unfold res_cell in H. destruct (e_res e) as [r|]; [|tauto].
+  assert (H3 := H (r, t) (or_intror (or_intror (or_introl eq_refl)))).
+  unfold at_ in H3; cbn [fst snd] in H3. now rewrite <- H3.
+Qed.
+
+Lemma detect_ext pl e t (d d' : data) :
+  (forall c, In c (plan_cells pl (t, e)) -> at_ d c = at_ d' c) ->
+  detect A (get_transform A pl e t) (e_lhs e) t d = detect A (get_transform A pl e t) (e_lhs e) t d'.
+Proof.
+  intros H. cbn [plan_cells] in H. unfold detect. destruct (get_transform A pl e t) as [pp|]; [|reflexivity].
+  assert (H1 := H (e_lhs e, (t + p_shift pp)%Z) (or_introl eq_refl)). unfold at_ in H1; cbn [fst snd] in H1.
+  rewrite <- H1. destruct (p_row pp) as [r|]; [|reflexivity].
+  assert (H2 := H (r, t) (or_intror (or_introl eq_refl))). unfold at_ in H2; cbn [fst snd] in H2. now rewrite <- H2.
+Qed.
+
+(* after one step the equation holds at its cell *)
+Lemma step_establishes pl t e (d : data) :
+  step_ok (t, e) -> dom_ok pl (t, e) d -> holds e t (step A pl (t, e) d).
+Proof.
+  intros [Hwf [Hl Hr]] Hdom. unfold step, dom_ok, may_simulate in *. cbn [fst snd] in Hdom.
+  destruct (detect A (get_transform A pl e t) (e_lhs e) t d) as [v|] eqn:Hd.
+  - (* exogenized: never an identity *)
+    unfold get_transform in Hd. destruct (e_res e) as [r|] eqn:Hres; [|discriminate].
+    refine (proj2 (cell_after_exogenize e t v d r Hres _ (Hr r eq_refl))).
+    unfold wf_eqn in Hwf. now rewrite Hres in Hwf.
+  - apply cell_after_simulate; [exact Hwf | exact Hl |]. rewrite lhs_shifts_agree. apply Hdom.
+    unfold detect in Hd. destruct (get_transform A pl e t) as [pp|]; [|exact I].
+    destruct (p_when_data pp); [reflexivity|]. cbn in Hd. discriminate.
+Qed.
+
+(* and, when exogenized, the LHS carries the implied value *)
+Lemma step_exogenized_value pl t e (d : data) v :
+  step_ok (t, e) -> detect A (get_transform A pl e t) (e_lhs e) t d = Some v ->
+  step A pl (t, e) d (e_lhs e) t = v.
+Proof.
+  intros [Hwf _] Hd. unfold step. rewrite Hd. now apply exogenize_cell_lhs.
+Qed.
+
+(* THE FOLD INVARIANT.  For ANY list of steps (period, equation) executed in order: if no later step writes a
+   cell an earlier step depends on, then at the end every equation holds in every executed period. *)
+Theorem fold_invariant pl steps (d0 : data) :
+  rbw pl steps -> (forall s, In s steps -> step_ok s) ->
+  (forall s, In s steps -> dom_ok pl s (run A pl steps d0)) ->
+  forall t e, In (t, e) steps -> holds e t (run A pl steps d0).
+Proof.
+  revert d0. induction steps as [|s steps IH]; intros d0 Hrbw Hok Hdom t e Hin; [contradiction|].
+  cbn [run fold_left] in *. change (fold_left (fun d s => step A pl s d) steps (step A pl s d0))
+    with (run A pl steps (step A pl s d0)) in *.
+  destruct Hrbw as [Hs Hrbw].
+  assert (Hfin : forall c, In c (deps pl s) -> at_ (run A pl steps (step A pl s d0)) c = at_ (step A pl s d0) c).
+  { intros c Hc. apply run_frame. intros s' Hs' Hw. exact (Hs s' Hs' c Hw Hc). }
+  destruct Hin as [->|Hin].
+  - (* the first step: established by the step, preserved by the rest *)
+    apply (holds_ext e t (step A pl (t, e) d0)).
+    + intros c Hc. symmetry. apply Hfin. apply in_or_app. now left.
+    + apply step_establishes; [apply Hok; now left|].
+      intros Hm. specialize (Hdom (t, e) (or_introl eq_refl) Hm). cbn [fst snd] in *.
+      (* the reference value is the same before the step and at the end *)
+      pose (c := (e_lhs e, (t + lhs_of_level_shift (e_tr e))%Z)).
+      assert (Hc : In c (deps pl (t, e))) by (apply in_or_app; left; right; now left).
+      pose proof (Hfin c Hc) as Hfc. unfold at_, c in Hfc; cbn [fst snd] in Hfc. rewrite Hfc in Hdom.
+      destruct (uses_lag (e_tr e)) eqn:Hu.
+      * destruct (Hok (t, e) (or_introl eq_refl)) as [Hwf _].
+        assert (Hnw : ~ In c (writes (t, e))).
+        { pose proof (shift_negative _ Hu) as Hneg. unfold c, writes, res_cell; cbn [fst snd].
+          intros [E|E].
+          - injection E as E. lia.
+          - destruct (e_res e) as [r|] eqn:Hr; [|contradiction]. destruct E as [E|[]].
+            injection E as E1 E2. lia. }
+        pose proof (step_frame pl (t, e) d0 c Hnw) as Hf. unfold at_, c in Hf; cbn [fst snd] in Hf. now rewrite <- Hf.
+      * destruct (e_tr e); cbn in *; try discriminate; exact I.
+  - apply IH; auto.
+    + intros s' Hs'. apply Hok. now right.
+    + intros s' Hs'. apply Hdom. now right.
+Qed.
+
+(* ... and every exogenized point carries the value implied by its plan transform, computed from the data at
+   the time of the step (which, by reads-before-writes, are final except for the cell itself) *)
+Theorem exogenized_value_final pl pre t e post (d0 : data) v :
+  rbw pl (pre ++ (t, e) :: post) -> step_ok (t, e) ->
+  detect A (get_transform A pl e t) (e_lhs e) t (run A pl pre d0) = Some v ->
+  run A pl (pre ++ (t, e) :: post) d0 (e_lhs e) t = v.
+Proof.
+  intros Hrbw Hok Hd. unfold run. rewrite fold_left_app. cbn [fold_left].
+  change (run A pl post (step A pl (t, e) (run A pl pre d0)) (e_lhs e) t = v).
+  apply ordpairs_app in Hrbw as [_ [[Hs _] _]].
+  pose proof (run_frame pl post (step A pl (t, e) (run A pl pre d0)) (e_lhs e, t)) as Hf.
+  unfold at_ in Hf; cbn [fst snd] in Hf. rewrite Hf.
+  - now apply step_exogenized_value.
+  - intros s' Hs' Hw. apply (Hs s' Hs' _ Hw). apply in_or_app. left. now left.
+Qed.
+
 End Real.
